@@ -20,13 +20,15 @@ Inductive prim (c : config) : mstate -> mstate -> Prop :=
 | p_emit e m : quiet e = true -> prim c m (emit e m)
 | p_bits b m : prim c m (set_bits b m)
 | p_negd l m : prim c m (set_negd l m)
-| p_list ca t r m : prim c m (set_list ca t r m)
+| p_list ca t al r m : prim c m (set_list ca t al r m)
 | p_outs o m : prim c m (set_outs o m)
 | p_choices ch m : prim c m (set_choices ch m)
 | p_hs m : prim c m (set_hs false m)
 | p_read rp it rest m : m_in m = it :: rest -> prim c m (emit (EIn rp (m_bits m) it) (set_in rest m))
 | p_switch m : prim c m (emit (ESwitch (tls_name c m)) (switch_layer m))
-| p_adv a m : prim c m (set_adv a m).
+| p_adv a m : prim c m (set_adv a m)
+| p_info n m : prim c m (set_info n m)
+| p_ready b m : prim c m (set_ready b m).
 
 Inductive evolves (c : config) : mstate -> mstate -> Prop :=
 | ev_refl m : evolves c m m
@@ -56,10 +58,13 @@ Proof.
   - apply ev1. eapply p_read. exact E.
 Qed.
 
-Lemma expect_header_ev c m m' r : expect_header m = (m', r) -> evolves c m m'.
+Lemma expect_header_ev c m m' r : expect_header c m = (m', r) -> evolves c m m'.
 Proof.
-  unfold expect_header. destruct (read RPHeader m) as [m1 x] eqn:E. intro H; inversion H; subst.
-  eapply read_ev; eauto.
+  unfold expect_header. destruct (read RPHeader m) as [m1 x] eqn:E.
+  pose proof (read_ev c _ _ _ _ E) as H1.
+  destruct (header_of x) as [h|]; [|intro H; inversion H; subst; exact H1].
+  destruct (header_ok c (assign h (m_info m1))); intro H; inversion H; subst;
+    (eapply ev_step; [exact H1|apply p_info]).
 Qed.
 
 Lemma send_header_ev c m m' r : send_header c m = (m', r) -> evolves c m m'.
@@ -112,7 +117,7 @@ Proof.
   destruct (o_err o).
   - inversion H; subst. apply ev1, p_negd.
   - destruct (o_restart o || req); inversion H; subst;
-      (eapply ev_step; [apply ev1, p_bits|apply p_negd]).
+      (eapply ev_step; [eapply ev_step; [apply ev1, p_bits|apply p_ready]|apply p_negd]).
 Qed.
 
 Lemma select_ev c m m' r : select m = (m', r) -> evolves c m m'.
@@ -154,7 +159,7 @@ Lemma normal_path_ev c m m' r : normal_path c m = (m', r) -> evolves c m m'.
 Proof.
   unfold normal_path. destruct (m_total m).
   - intro H; inversion H; subst. apply ev_refl.
-  - destruct (m_cache m) eqn:E.
+  - destruct (m_allowed m) eqn:E.
     + intro H; inversion H; subst. apply ev_refl.
     + apply init_loop_ev.
 Qed.
@@ -188,7 +193,7 @@ Qed.
 Definition headers (c : config) (m : mstate) (ns : nstate) : mstate * res unit :=
   if ns_restart ns then
     match send_header c m with
-    | (ma, Good _) => expect_header ma
+    | (ma, Good _) => expect_header c ma
     | other => other
     end
   else (m, Good tt).
@@ -231,6 +236,26 @@ Proof.
   - intro H; inversion H; subst. exact H1.
 Qed.
 
+(* what negotiateSession itself does between two calls of the negotiator *)
+Lemma renew_info_ev c m : evolves c m (renew_info m).
+Proof. unfold renew_info. destruct (has (m_bits m) st_Ready); [apply ev_refl|apply ev1, p_info]. Qed.
+
+Lemma reset_stream_ev c m : evolves c m (reset_stream m).
+Proof. unfold reset_stream. eapply ev_step; [apply ev1, p_negd|apply p_adv]. Qed.
+
+Lemma tee_state_ev c m : evolves c m (tee_state m).
+Proof. unfold tee_state. eapply ev_trans; [apply reset_stream_ev|apply renew_info_ev]. Qed.
+
+Lemma next_state_ev c restart mask m : evolves c m (next_state restart mask m).
+Proof.
+  unfold next_state. destruct restart.
+  - eapply ev_trans; [apply reset_stream_ev|]. eapply ev_trans; [apply ev1, p_bits|apply renew_info_ev].
+  - apply ev1, p_bits.
+Qed.
+
+Lemma fail_state_ev c m : evolves c m (fail_state m).
+Proof. apply ev1, p_bits. Qed.
+
 (* ------------------------------------------------------------------ invariants of a run *)
 
 Lemma evolves_inv c (I : mstate -> Prop) :
@@ -246,12 +271,12 @@ Proof.
   - exact Hm.
   - destruct (has (m_bits m) st_Ready); [exact Hm|].
     destruct (tee && negb istee).
-    + apply IH. eapply Hp; [apply p_adv|]. eapply Hp; [apply p_negd|exact Hm].
+    + apply IH. exact (evolves_inv c I Hp _ _ (tee_state_ev c m) Hm).
     + destruct (negotiator_body c m (ns_of data)) as [m1 r] eqn:E.
       pose proof (evolves_inv c I Hp _ _ (negotiator_body_ev _ _ _ _ _ E) Hm) as H1.
-      destruct r as [[[mask restart] ns1]|e|]; cbn; try exact H1.
-      apply IH. eapply Hp; [apply p_bits|].
-      destruct restart; [eapply Hp; [apply p_adv|]; eapply Hp; [apply p_negd|exact H1]|exact H1].
+      destruct r as [[[mask restart] ns1]|e|]; cbn [r_state]; try exact H1.
+      * apply IH. exact (evolves_inv c I Hp _ _ (next_state_ev c restart mask m1) H1).
+      * exact (evolves_inv c I Hp _ _ (fail_state_ev c m1) H1).
 Qed.
 
 (* ------------------------------------------------------------------ list lemmas on traces *)
@@ -317,7 +342,7 @@ Definition acct (clear tls : list pitem) (m : mstate) : Prop :=
 
 Lemma acct_prim c clear tls m m' : prim c m m' -> acct clear tls m -> acct clear tls m'.
 Proof.
-  intros Hp. destruct Hp as [e m Hq| | | | | | |rp it rest m Hin|m|]; try (intro H; exact H).
+  intros Hp. destruct Hp as [e m Hq| | | | | | |rp it rest m Hin|m| | |]; try (intro H; exact H).
   - (* quiet event *)
     destruct (quiet_facts e Hq) as (Hs & Hi & _).
     unfold acct; cbn [m_tr emit m_in m_tlsin].
@@ -375,7 +400,7 @@ Definition fvinv (c : config) (fv : option bytes) (m : mstate) : Prop :=
 
 Lemma fvinv_prim c fv m m' : prim c m m' -> fvinv c fv m -> fvinv c fv m'.
 Proof.
-  intros Hp. destruct Hp as [e m Hq| | | | | | |rp it rest m Hin|m|]; try (intro H; exact H).
+  intros Hp. destruct Hp as [e m Hq| | | | | | |rp it rest m Hin|m| | |]; try (intro H; exact H).
   - destruct (quiet_facts e Hq) as (_ & _ & Hn).
     unfold fvinv; cbn [m_tr emit m_fv]. rewrite server_names_app, Hn, app_nil_r. auto.
   - unfold fvinv; cbn [m_tr emit set_in m_fv]. rewrite server_names_app. cbn. rewrite app_nil_r. auto.
@@ -408,7 +433,7 @@ Definition remaining (m : mstate) : nat := length (m_in m) + length (m_tlsin m).
 
 Lemma remaining_prim c m m' : prim c m m' -> remaining m' <= remaining m.
 Proof.
-  intros Hp. destruct Hp as [e m Hq| | | | | | |rp it rest m Hin|m|]; unfold remaining; cbn; try lia.
+  intros Hp. destruct Hp as [e m Hq| | | | | | |rp it rest m Hin|m| | |]; unfold remaining; cbn; try lia.
   rewrite Hin. cbn. lia.
 Qed.
 
@@ -453,15 +478,13 @@ Proof.
   destruct (has (m_bits m) st_Ready); [cbn; discriminate|].
   destruct (tee && negb istee) eqn:Et.
   - apply IH. unfold measure in *. rewrite Et in Hlt. cbn [negb]. rewrite Bool.andb_false_r.
-    unfold remaining in *. cbn [reset_stream set_adv set_negd m_in m_tlsin]. lia.
+    pose proof (remaining_ev c _ _ (tee_state_ev c m)). lia.
   - destruct (negotiator_body c m (ns_of data)) as [m1 r] eqn:E.
     destruct r as [[[mask restart] ns1]|e|]; cbn; try discriminate.
     apply IH. pose proof (negotiator_body_consumes _ _ _ _ _ E) as Hc.
     unfold measure in *. rewrite Et in Hlt.
-    assert (remaining (set_bits (N.lor (m_bits (if restart then reset_stream m1 else m1)) mask)
-                                (if restart then reset_stream m1 else m1)) = remaining m1) as Hr
-      by (destruct restart; reflexivity).
-    rewrite Hr. destruct (tee && negb (if restart then false else istee)); lia.
+    pose proof (remaining_ev c _ _ (next_state_ev c restart mask m1)) as Hr.
+    destruct (tee && negb (if restart then false else istee)); lia.
 Qed.
 
 Lemma run_not_fuel tee c fv bits clear tls outs choices :
@@ -487,27 +510,41 @@ Qed.
 
 (* ------------------------------------------------------------------ the tee changes nothing *)
 
-Lemma reset_same m : m_negd m = [] /\ m_adv m = [] -> reset_stream m = m.
-Proof. destruct m; cbn. intros (H1 & H2); subst. reflexivity. Qed.
+(* nothing of an earlier stream is left: true at the start and right after a restart *)
+Definition fresh (m : mstate) : Prop :=
+  m_negd m = [] /\ m_adv m = [] /\ (has (m_bits m) st_Ready = false -> keep_addr (m_info m) = m_info m).
+
+Lemma tee_state_same m : fresh m -> has (m_bits m) st_Ready = false -> tee_state m = m.
+Proof.
+  intros (H1 & H2 & H3) Hr. unfold tee_state, renew_info, reset_stream. cbn [m_bits set_adv set_negd].
+  rewrite Hr. cbn [m_info set_adv set_negd]. rewrite (H3 Hr). destruct m; cbn in *; subst. reflexivity.
+Qed.
+
+Lemma next_state_fresh mask m : fresh (next_state true mask m).
+Proof.
+  unfold next_state, renew_info, fresh. cbn [m_bits set_bits reset_stream set_adv set_negd].
+  destruct (has (N.lor (m_bits m) mask) st_Ready) eqn:E; cbn [m_negd m_adv m_bits m_info set_info set_bits reset_stream set_adv set_negd].
+  - repeat split; try reflexivity. rewrite E. discriminate.
+  - repeat split; reflexivity.
+Qed.
 
 Lemma session_loop_S k tee c m data istee :
   session_loop (S k) tee c m data istee =
   if has (m_bits m) st_Ready then mkR ROk (m_bits m) m
   else if tee && negb istee then
-    session_loop k tee c (reset_stream m) (Some (ns_of data)) true
+    session_loop k tee c (tee_state m) (Some (ns_of data)) true
   else
     match negotiator_body c m (ns_of data) with
     | (m1, Good (mask, restart, ns1)) =>
-        let m2 := if restart then reset_stream m1 else m1 in
-        session_loop k tee c (set_bits (N.lor (m_bits m2) mask) m2) (Some ns1) (if restart then false else istee)
-    | (m1, Bad e) => mkR (RErr e) (m_bits m1) m1
+        session_loop k tee c (next_state restart mask m1) (Some ns1) (if restart then false else istee)
+    | (m1, Bad e) => mkR (RErr e) (m_bits (fail_state m1)) (fail_state m1)
     | (m1, Stuck) => mkR RStuck (m_bits m1) m1
     end.
 Proof. reflexivity. Qed.
 
 Lemma tee_sim c : forall k m data data' istee i2,
   ns_of data = ns_of data' ->
-  (istee = false -> m_negd m = [] /\ m_adv m = []) ->
+  (istee = false -> fresh m) ->
   r_class (session_loop k false c m data' i2) <> RFuel ->
   session_loop (2 * k) true c m data istee = session_loop k false c m data' i2.
 Proof.
@@ -520,19 +557,18 @@ Proof.
   - (* already a teeConn *)
     rewrite Hns. destruct (negotiator_body c m (ns_of data')) as [m1 r] eqn:E.
     destruct r as [[[mask restart] ns1]|e|]; try reflexivity.
-    set (m2 := set_bits (N.lor (m_bits (if restart then reset_stream m1 else m1)) mask)
-                        (if restart then reset_stream m1 else m1)) in *.
+    set (m2 := next_state restart mask m1) in *.
     assert (session_loop (2 * k) true c m2 (Some ns1) (if restart then false else true)
             = session_loop k false c m2 (Some ns1) (if restart then false else i2)) as Heq.
-    { apply IH; [reflexivity| |exact Hnf]. destruct restart; [intros _; split; reflexivity|discriminate]. }
+    { apply IH; [reflexivity| |exact Hnf]. destruct restart; [intros _; apply next_state_fresh|discriminate]. }
     replace (S (2 * k)) with (2 * k + 1) by lia.
     rewrite session_loop_mono; [exact Heq|]. rewrite Heq. exact Hnf.
   - (* the wrapping call, then the same call as without tee *)
-    rewrite (reset_same m (Hneg eq_refl)).
+    rewrite (tee_state_same m (Hneg eq_refl) Er).
     rewrite (session_loop_S (2 * k)). rewrite Er. cbn [andb negb ns_of].
     rewrite Hns. destruct (negotiator_body c m (ns_of data')) as [m1 r] eqn:E.
     destruct r as [[[mask restart] ns1]|e|]; try reflexivity.
-    apply IH; [reflexivity| |exact Hnf]. destruct restart; [intros _; split; reflexivity|discriminate].
+    apply IH; [reflexivity| |exact Hnf]. destruct restart; [intros _; apply next_state_fresh|discriminate].
 Qed.
 
 Lemma run_tee_invariant c fv bits clear tls outs choices :
@@ -540,8 +576,8 @@ Lemma run_tee_invariant c fv bits clear tls outs choices :
 Proof.
   pose proof (run_not_fuel true c fv bits clear tls outs choices) as Ht.
   pose proof (run_not_fuel false c fv bits clear tls outs choices) as Hf.
-  unfold run in *. set (F := fuel_for clear tls) in *. set (m0 := init_state fv bits clear tls outs choices) in *.
+  unfold run in *. set (F := fuel_for clear tls) in *. set (m0 := init_state c fv bits clear tls outs choices) in *.
   rewrite <- (session_loop_mono c F true m0 None false F Ht).
   replace (F + F) with (2 * F) by lia.
-  apply tee_sim; [reflexivity|intros _; split; reflexivity|exact Hf].
+  apply tee_sim; [reflexivity|intros _; repeat split; reflexivity|exact Hf].
 Qed.
